@@ -19,7 +19,7 @@ def main():
             cur = 'stateless'
         elif 'def statefulOps' in line:
             cur = 'stateful'
-        m = re.match(r'\s*\("([\w-]+)",\s*(\w+)\)', line)
+        m = re.match(r"\s*\(\"([\w-]+)\",\s*([\w.]+)\)", line)
         if m and cur and (m.group(1), m.group(2)) not in ops[cur]:
             ops[cur].append((m.group(1), m.group(2)))
     head = s[:s.index('import BufrModel')]
